@@ -21,8 +21,10 @@ GOENV = dict(os.environ, GOFLAGS="-mod=mod", GOPROXY="off", GOSUMDB="off", GOTOO
 
 
 def load_index():
-    with open(os.path.join(HDIR, "index.json")) as f:
-        return json.load(f)
+    ns = {}
+    with open(os.path.join(HDIR, "index.py")) as f:
+        exec(f.read(), ns)
+    return ns["INDEX"]
 
 
 def load_known():
